@@ -6,15 +6,16 @@ import json, os, subprocess, sys, tempfile, shutil
 from concurrent.futures import ThreadPoolExecutor
 VERIF = os.path.dirname(os.path.dirname(os.path.abspath(__file__)))
 args = sys.argv[1:]
-also, jobs, filt = [], 4, []
+also, jobs, filt, DIR = [], 4, [], "seeded"
 while args:
     a = args.pop(0)
     if a == "--also": also = args.pop(0).split(",")
     elif a == "-j": jobs = int(args.pop(0))
+    elif a == "--dir": DIR = args.pop(0)        # "seeded" (property-breaking: the check must exit 1) or "benign" (behaviour-preserving: it must not)
     else: filt.append(a)
 
 def run(name):
-    d = os.path.join(VERIF, "seeded", name)
+    d = os.path.join(VERIF, DIR, name)
     tmp = tempfile.mkdtemp(prefix="aovc_det_")
     out = {}
     try:
@@ -27,14 +28,14 @@ def run(name):
             q = subprocess.run(["python3-vt", os.path.join(VERIF, "checks", pid + ".py"), "--tier", "quick"], cwd=VERIF, env=env, capture_output=True, text=True, timeout=3600)
             lines = q.stdout.splitlines()
             failed = [l for l in lines if l.startswith("FAILED ")]
-            unsup = [l for l in lines if l.startswith("UNSUPPORTED ")]
+            unsup = [l for l in lines if l.startswith("UNSUPPORTED ")] + [l for l in lines if l.startswith("BOUNDED-ONLY ")]
             out[pid] = {"exit": q.returncode, "failed": [f[:230] for f in failed[:4]], "n_failed": len(failed), "unsupported": [u[:200] for u in unsup[:3]],
                         "last": lines[-1] if lines else q.stderr[-300:]}
     finally:
         shutil.rmtree(tmp, ignore_errors=True)
     return name, out
 
-names = sorted(n for n in os.listdir(os.path.join(VERIF, "seeded")) if os.path.exists(os.path.join(VERIF, "seeded", n, "patch.diff")))
+names = sorted(n for n in os.listdir(os.path.join(VERIF, DIR)) if os.path.exists(os.path.join(VERIF, DIR, n, "patch.diff")))
 if filt: names = [n for n in names if any(f in n for f in filt)]
 res = {}
 with ThreadPoolExecutor(jobs) as ex:
@@ -47,7 +48,7 @@ with ThreadPoolExecutor(jobs) as ex:
             for f in r["failed"]: print("      ", f)
             for u in r["unsupported"]: print("      ", u)
         sys.stdout.flush()
-out_path = os.path.join(VERIF, "seeded", "detection.json")
+out_path = os.path.join(VERIF, DIR, "detection.json")
 try:
     old = json.load(open(out_path))
 except Exception:
